@@ -1,11 +1,49 @@
 // C18: parsing work grows near-linearly on deterministic grammars (machine independent work units).
 #include "props.hpp"
+#include <fstream>
+#include <sstream>
 #include <sys/wait.h>
 #include <unistd.h>
 
 namespace vf {
 namespace {
 
+const char CHAIN_OPS[] = "+-*/%&|^<>=!~?:."; // one binary operator per precedence level
+// family 3: left-recursive precedence chain of L levels (the shape of the expression part of a C grammar):
+//   E1 : E1 op1 E2 | E2 ;  ...  EL : EL opL F | F ;  F : 'a' | '(' E1 ')'
+std::string chainText(int L) {
+  std::string t = "TERM;\n";
+  for (int i = 1; i <= L; i++) {
+    std::string e = "E" + std::to_string(i), nx = i < L ? "E" + std::to_string(i + 1) : "F";
+    t += e + " : " + e + " '" + CHAIN_OPS[i - 1] + "' " + nx + " # o" + std::to_string(i) + " (0 2)\n | " + nx + " # 0\n ;\n";
+  }
+  t += "F : 'a' # 0\n | '(' E1 ')' # 1\n ;\n";
+  return t;
+}
+// family 4: the ANSI C grammar of the repository's test41 (fixtures/ansic/description.txt) on the token stream of the
+// repository's test/test.i (75898 tokens, fixtures/ansic/tokens.txt), cut after complete external declarations
+struct AnsiC { std::string text; std::vector<int> toks; std::vector<long> cuts; bool ok = false; };
+const AnsiC &ansiC() {
+  static AnsiC a;
+  static bool tried = false;
+  if (tried) return a;
+  tried = true;
+  std::string dir = rootDir() + "/fixtures/ansic/";
+  std::ifstream d(dir + "description.txt"), t(dir + "tokens.txt");
+  if (!d || !t) return a;
+  std::stringstream ss; ss << d.rdbuf(); a.text = ss.str();
+  int x; while (t >> x) a.toks.push_back(x);
+  // external declarations end with ';' at bracket depth 0 or are function definitions followed by the next declaration
+  long depth = 0;
+  for (size_t i = 0; i < a.toks.size(); i++) {
+    int k = a.toks[i];
+    if (k == '{' || k == '(' || k == '[') depth++;
+    else if (k == '}' || k == ')' || k == ']') depth--;
+    if (depth == 0 && k == ';') a.cuts.push_back((long)i + 1); // function definitions lie between two such places
+  }
+  a.ok = !a.text.empty() && a.toks.size() > 1000 && !a.cuts.empty();
+  return a;
+}
 const char *famText(int f) {
   switch (f) {
   default:
@@ -33,8 +71,19 @@ void genStmt(Choices &c, int depth, std::vector<int> &w) {
 Case genC18(Choices &c, int tier) {
   Case cs;
   cs.prop = "C18";
-  int f = c.upto(2);
+  int f = c.upto(9) == 9 ? 4 : c.upto(3); // 10% ANSI C
   cs.par["family"] = f;
+  if (f == 4) {
+    // ANSI C: window of the real token stream starting at external declaration number `from'; n and 2n are cut positions
+    cs.par["la"] = c.upto(2);
+    static const int na[] = {1000, 2000, 4000, 8000, 16000, 32000};
+    cs.par["n"] = na[c.upto(tier ? 5 : 4)];
+    cs.par["from"] = c.upto(2000);
+    cs.inputs.push_back({});
+    return cs;
+  }
+  int L = 0;
+  if (f == 3) { L = c.range(2, 16); cs.par["levels"] = L; }
   cs.par["la"] = c.upto(2);
   static const int ns[] = {1000, 2000, 4000, 8000, 16000, 32000, 64000, 128000, 256000};
   cs.par["n"] = ns[c.upto(tier ? 8 : 5)];
@@ -44,21 +93,46 @@ Case genC18(Choices &c, int tier) {
     std::vector<int> w;
     if (f == 0) { int m = c.range(1, 5); for (int k = 0; k < m; k++) { if (k) w.push_back(','); w.push_back('a'); } }
     else if (f == 1) genExpr(c, 0, w);
+    else if (f == 3) { // a op a op ... with operators of any level, sometimes a parenthesised operand
+      int m = c.range(1, 6);
+      for (int k = 0; k < m; k++) {
+        if (k) w.push_back(CHAIN_OPS[c.upto(L - 1)]);
+        if (c.chance(15)) { w.push_back('('); w.push_back('a'); w.push_back(CHAIN_OPS[c.upto(L - 1)]); w.push_back('a'); w.push_back(')'); } else w.push_back('a');
+      }
+    }
     else genStmt(c, 0, w);
     cs.inputs.push_back(w);
   }
   cs.par["mix"] = c.upto(1000);
+  if (f == 3) cs.par["glue"] = c.upto(2); // fragments joined by the lowest / the highest / any level's operator
   return cs;
 }
 
 std::vector<int> assemble(const Case &cs, long n) {
   int f = (int)cs.P("family");
+  if (f == 4) {
+    const AnsiC &a = ansiC();
+    std::vector<int> w;
+    if (!a.ok) return w;
+    // start after external declaration number from (mod), end at the first cut >= start + n (the tail of the file if short)
+    size_t ci = (size_t)cs.P("from") % a.cuts.size();
+    long start = ci == 0 ? 0 : a.cuts[ci - 1];
+    if (start + 2 * cs.P("n", 1000) > (long)a.toks.size()) start = 0;
+    long end = (long)a.toks.size();
+    for (long cpos : a.cuts) if (cpos >= start + n) { end = cpos; break; }
+    w.assign(a.toks.begin() + start, a.toks.begin() + end);
+    return w;
+  }
   std::vector<int> w;
   unsigned long x = (unsigned long)cs.P("mix") * 2654435761u + 12345;
   while ((long)w.size() < n) {
     x = x * 6364136223846793005UL + 1442695040888963407UL;
     const std::vector<int> &fr = cs.inputs[(x >> 33) % cs.inputs.size()];
-    if (!w.empty()) { if (f == 0) w.push_back(','); else if (f == 1) w.push_back((x >> 20) & 1 ? '+' : '*'); }
+    if (!w.empty()) {
+      if (f == 0) w.push_back(',');
+      else if (f == 1) w.push_back((x >> 20) & 1 ? '+' : '*');
+      else if (f == 3) { long L = cs.P("levels", 4); long glue = cs.P("glue", 0); w.push_back(CHAIN_OPS[glue == 0 ? 0 : glue == 1 ? L - 1 : (long)((x >> 20) % (unsigned long)L)]); }
+    }
     w.insert(w.end(), fr.begin(), fr.end());
   }
   return w;
@@ -68,7 +142,7 @@ struct Work { long bytes, searches, collisions, sets, cores, hits, triples, toks
 bool measure(const Case &cs, const std::vector<int> &w, Work &wk, Verdict &v) {
   Binding *b = newCBinding();
   b->create();
-  GramDef gd; gd.use_text = true; gd.text = famText((int)cs.P("family")); gd.strict = 1;
+  GramDef gd; gd.use_text = true; gd.text = cs.P("family") == 4 ? ansiC().text : cs.P("family") == 3 ? chainText((int)cs.P("levels", 4)) : std::string(famText((int)cs.P("family"))); gd.strict = 1;
   if (defineGrammar(*b, gd) != 0) { v.fail(std::string("family grammar rejected: ") + b->error_message()); return false; }
   Conf cf; cf.la = (int)cs.P("la", 1); cf.one = 1; cf.rec = 0;
   cf.freemode = 1; // the tree is released by the harness: yaep_free_tree recurses once per tree level (listed finding KF-C13-free-tree-deep-recursion)
@@ -90,6 +164,9 @@ Verdict runC18(const Case &cs) {
   if (cs.inputs.empty()) { v.st = V_DISCARD; return v; }
   long n = cs.P("n", 1000);
   std::vector<int> w0 = assemble(cs, 64), w1 = assemble(cs, n), w2 = assemble(cs, 2 * n);
+  // real C code is not homogeneous (declarations first, function bodies later): the doubled input is the window twice,
+  // which is again a translation unit
+  if (cs.P("family") == 4) { w2 = w1; w2.insert(w2.end(), w1.begin(), w1.end()); }
   Work a, b, c;
   if (!measure(cs, w0, a, v) || !measure(cs, w1, b, v) || !measure(cs, w2, c, v)) return v;
   v.parses = 3;
@@ -103,7 +180,7 @@ Verdict runC18(const Case &cs) {
     if (pid == 0) {
       reattachReports();
       Binding *bb = newCBinding(); bb->create();
-      GramDef gd; gd.use_text = true; gd.text = famText((int)cs.P("family")); gd.strict = 1;
+      GramDef gd; gd.use_text = true; gd.text = cs.P("family") == 4 ? ansiC().text : cs.P("family") == 3 ? chainText((int)cs.P("levels", 4)) : std::string(famText((int)cs.P("family"))); gd.strict = 1;
       defineGrammar(*bb, gd);
       Conf cf; cf.la = 1; cf.one = 1; cf.rec = 0; cf.freemode = 0;
       ParseOpts po; po.analyse_tree = false;
@@ -119,30 +196,55 @@ Verdict runC18(const Case &cs) {
       return v;
     }
   }
+  if (cs.P("family") == 4) {
+    // windows of real code: a declaration of thousands of tokens at the start makes the three inputs coincide
+    double r = (double)w2.size() / (double)std::max<size_t>(1, w1.size());
+    if (w1.size() < 4 * w0.size() || r < 1.9) { v.st = V_DISCARD; v.labels.insert("discard:ansi-c-window-not-doubling"); return v; }
+    if ((double)c.sets > 0.6 * (double)w2.size()) { v.fail("more than 60% of the tokens of C code produce a new Earley set" + info); return v; }
+  }
   if (a.rc || b.rc || c.rc || !b.tree || !c.tree || b.nerr || c.nerr) { v.fail("the generated input of a deterministic family is not parsed as a sentence" + info); return v; }
-  if (getenv("VERIF_C18_PRINT")) fprintf(stderr, "C18DATA fam=%ld la=%ld n=%zu spt=%.2f bpt=%.1f cps=%.3f sets/tok=%.3f cores=%ld hits/tok=%.3f | 2n: spt=%.2f bpt=%.1f cps=%.3f\n", cs.P("family"), cs.P("la"), w1.size(),
+  if (FILE *df = getenv("VERIF_C18_PRINT") ? fopen(getenv("VERIF_C18_PRINT"), "a") : nullptr) { fprintf(df, "C18DATA fam=%ld L=%ld la=%ld n=%zu spt=%.2f bpt=%.1f cps=%.3f sets/tok=%.3f cores=%ld hits/tok=%.3f | 2n: spt=%.2f bpt=%.1f cps=%.3f\n", cs.P("family"), cs.P("levels"), cs.P("la"), w1.size(),
       (double)b.searches / w1.size(), (double)(b.bytes - a.bytes) / w1.size(), (double)b.collisions / (b.searches + 1), (double)b.sets / w1.size(), b.cores, (double)b.hits / w1.size(),
-      (double)c.searches / w2.size(), (double)(c.bytes - a.bytes) / w2.size(), (double)c.collisions / (c.searches + 1));
+      (double)c.searches / w2.size(), (double)(c.bytes - a.bytes) / w2.size(), (double)c.collisions / (c.searches + 1)); fclose(df); }
   double tr = (double)w2.size() / (double)w1.size(); // the real length ratio (about 2)
+  if (FILE *df = getenv("VERIF_C18_PRINT") ? fopen(getenv("VERIF_C18_PRINT"), "a") : nullptr) {
+    fprintf(df, "C18GROW fam=%ld L=%ld la=%ld n=%zu tr=%.3f gs/tr=%.3f gb/tr=%.3f gc=%.3f\n", cs.P("family"), cs.P("levels"), cs.P("la"), w1.size(), tr,
+            (double)(c.searches - a.searches) / std::max(1.0, (double)(b.searches - a.searches)) / tr, (double)(c.bytes - a.bytes) / std::max(1.0, (double)(b.bytes - a.bytes)) / tr,
+            (double)(c.collisions + 1) / (double)(b.collisions + 1) / tr);
+    fclose(df);
+  }
+  if (getenv("VERIF_C18_CALIBRATE")) { v.nontrivial = true; return v; } // data collection only (development)
   auto grow = [&](long x0, long x1, long x2) { double d = (double)(x1 - x0); return d <= 0 ? 0.0 : (double)(x2 - x0) / d; };
   double gs = grow(a.searches, b.searches, c.searches), gb = grow(a.bytes, b.bytes, c.bytes);
   // thresholds: calibrated on the unchanged tree (observed <= 2.1 x for searches, <= 2.3 x for bytes because containers grow by 1.5 x steps)
   // slack for the step-wise growth of containers (1.5x steps): half of the constant part
   if ((double)(c.searches - a.searches) > 2.2 * tr * (double)(b.searches - a.searches) + 2000.0) { v.fail("hash-table searches grow faster than the input: x" + std::to_string(gs) + " for x" + std::to_string(tr) + " tokens" + info); return v; }
   if ((double)(c.bytes - a.bytes) > 2.2 * tr * (double)(b.bytes - a.bytes) + 0.5 * (double)a.bytes) { v.fail("bytes requested from the allocator grow faster than the input: x" + std::to_string(gb) + " for x" + std::to_string(tr) + " tokens" + info); return v; }
-  if (c.searches > 0 && (double)c.collisions > 3.0 * (double)c.searches) { v.fail("more than 3 collisions per hash-table search" + info); return v; }
-  if ((double)c.searches > 20.0 * (double)w2.size()) { v.fail("more than 20 hash-table searches per token" + info); return v; }
-  if ((double)(c.bytes - a.bytes) > 800.0 * (double)w2.size()) { v.fail("more than 800 bytes requested per token" + info); return v; }
+  if (c.searches > 0 && (double)c.collisions > 2.0 * (double)c.searches) { v.fail("more than 2 collisions per hash-table search" + info); return v; }
+  // absolute sanity bounds; the per-token constant depends on the size of the grammar (a set of an L-level chain holds O(L) situations)
+  // (calibration on the unchanged tree, 3000 cases: families 0-3 <= 9.5 searches and <= 451 bytes per token at n >= 1000, <= 12.8 / 901 for a
+  // 16-level chain at n = 1000; ANSI C <= 29.4 / 1678 at lookahead 2)
+  double L = (double)cs.P("levels", 0), maxSpt = 14.0 + 1.0 * L, maxBpt = 600.0 + 60.0 * L;
+  if (cs.P("family") == 4) { maxSpt = 50.0; maxBpt = 3000.0; }
+  if ((double)c.searches > maxSpt * (double)w2.size()) { v.fail("more than " + std::to_string((int)maxSpt) + " hash-table searches per token" + info); return v; }
+  if ((double)(c.bytes - a.bytes) > maxBpt * (double)w2.size()) { v.fail("more than " + std::to_string((int)maxBpt) + " bytes requested per token" + info); return v; }
   // identical sets are found again rather than rebuilt: the number of distinct sets stays far below the number of tokens
   // identical sets are found again rather than rebuilt: set cores (the sets without distances) do not grow with the input,
   // there is never more than one new set per token, and where whole sets repeat (statement family) they come from the goto cache
   info += ", set cores " + std::to_string(b.cores) + " -> " + std::to_string(c.cores);
+  // (precedence chains: the core after an operand depends on which levels have an open left operand, i.e. on a subset of
+  // the levels chosen by the operators seen so far; random operator sequences keep meeting new subsets, so the number of
+  // cores creeps up with the input there.  What sharing guarantees is that it stays a small fraction of the positions.)
+  if (cs.P("family") >= 3) {
+    if ((double)c.cores > 0.25 * (double)w2.size() + 50.0) { v.fail("more than a quarter of the token positions produce a new set core (set cores are rebuilt instead of found again)" + info); return v; }
+  } else
   if (c.cores > b.cores + 8) { v.fail("distinct set cores grow with the input (identical sets are rebuilt instead of found again)" + info); return v; }
   if (c.sets > (long)w2.size() + 3) { v.fail("more distinct Earley sets than tokens" + info); return v; }
   // statement family: the sets inside repeated statements are identical and must be found in the set table
   if (cs.P("family") == 2 && (double)c.sets > 0.75 * (double)w2.size()) { v.fail("more than 75% of the tokens produce a new Earley set on an input made of a few repeated statements" + info); return v; }
   if (c.hits > 0) v.labels.insert("goto-cache-hits");
   v.labels.insert("family:" + std::to_string(cs.P("family")));
+  if (cs.P("family") == 3) v.labels.insert(cs.P("levels") >= 10 ? "chain-levels:>=10" : cs.P("levels") >= 6 ? "chain-levels:6-9" : "chain-levels:2-5");
   v.labels.insert("la:" + std::to_string(cs.P("la")));
   v.labels.insert("n:" + std::to_string(n));
   if (n >= 4000) v.nontrivial = true;
@@ -156,10 +258,11 @@ void dbgPerf(const Case &cs) { Verdict v = runC18(cs); printf("verdict %d %s\n",
 extern const PropDef g_props_perf[] = {
     {"C18", genC18, runC18,
      "deterministic left-recursive families (comma list; E/T/F expressions with unary minus and parentheses; statements with while-blocks and "
-     "expressions) x lookahead{0,1,2} x n in {1k..32k} (thorough ..256k) x random fragment pools recombined pseudo-randomly into inputs of n and 2n "
+     "expressions; precedence chains of 2-16 left-recursive levels as in the expression part of a C grammar; 10%: the ANSI C grammar of the repository's test41 on "
+     "windows of the 75898-token stream of the repository's test/test.i cut at external declarations, doubled by repeating the window) x lookahead{0,1,2} x n in {1k..32k} (thorough ..256k) x random fragment pools recombined pseudo-randomly into inputs of n and 2n "
      "tokens; work units measured inside yaep_parse: bytes requested from the allocator (redirected malloc), hash-table searches and collisions "
      "(the library's own counters through hook H4), distinct sets, goto-cache hits; oracle (constant part W(64) removed): searches and bytes grow <= 2.2x "
-     "the token ratio plus a fixed slack (hash tables and arrays grow in 1.5x steps and rehash: calibrated worst case 1.77x), <= 20 searches and <= 800 bytes per token, <= 3 collisions per search, distinct set cores do not grow with n, at most one "
+     "the token ratio plus a fixed slack (hash tables and arrays grow in 1.5x steps and rehash: calibrated worst case 1.77x), <= 14 (+1 per chain level; ANSI C 50) searches and <= 600 (+60 per chain level; ANSI C 3000) bytes per token, <= 2 collisions per search, distinct set cores do not grow with n (precedence chains: stay below a quarter of the positions), at most one "
      "new set per token, distinct sets <= 75% of tokens on inputs made of repeated statements. Non-trivial: n >= 4000.",
      120},
 };
